@@ -2,7 +2,7 @@
 // every method returns a ghost answer chosen by the harness and records its arguments.
 #pragma once
 extern bool g_locktime_ok, g_sequence_ok; extern int g_locktime_calls, g_sequence_calls; extern int64_t g_locktime_arg, g_sequence_arg;
-extern int g_ecdsa_calls; extern bool g_ecdsa_ok[24]; extern verif_bytes g_ecdsa_sig[24]; extern verif_bytes g_ecdsa_key[24]; extern int g_ecdsa_sigversion[24];
+extern int g_ecdsa_calls; extern bool g_ecdsa_ok[VERIF_ORACLE_N]; extern verif_bytes g_ecdsa_sig[VERIF_ORACLE_N]; extern verif_bytes g_ecdsa_key[VERIF_ORACLE_N]; extern int g_ecdsa_sigversion[VERIF_ORACLE_N];
 extern int g_schnorr_calls; extern bool g_schnorr_ok; extern int g_schnorr_err; extern verif_bytes g_schnorr_sig, g_schnorr_key; extern int g_schnorr_sigversion;
 class BaseSignatureChecker {
 public:
@@ -11,7 +11,7 @@ public:
     bool CheckLockTime(const CScriptNum& nLockTime) const { g_locktime_calls = g_locktime_calls + 1; g_locktime_arg = nLockTime.GetInt64(); return g_locktime_ok; }
     bool CheckSequence(const CScriptNum& nSequence) const { g_sequence_calls = g_sequence_calls + 1; g_sequence_arg = nSequence.GetInt64(); return g_sequence_ok; }
     bool CheckECDSASignature(const verif_bytes& scriptSig, const verif_bytes& vchPubKey, const CScript& scriptCode, SigVersion sigversion) const {
-        int k = g_ecdsa_calls; VERIF_LIMIT(k < 24, "ECDSA oracle call log capacity");
+        int k = g_ecdsa_calls; VERIF_LIMIT(k < VERIF_ORACLE_N, "ECDSA oracle call log capacity");
         g_ecdsa_sig[k] = scriptSig; g_ecdsa_key[k] = vchPubKey; g_ecdsa_sigversion[k] = (int)sigversion; g_ecdsa_calls = k + 1; return g_ecdsa_ok[k];
     }
     bool CheckSchnorrSignature(const verif_bytes& sig, const verif_bytes& pubkey, SigVersion sigversion, ScriptExecutionData& execdata, ScriptError* serror = 0) const {
